@@ -52,3 +52,20 @@ Theorem C18_message_boundaries :
     deliver chunks = map (fun m => concat (fst m) ++ snd m) msgs.
 Proof. exact deliver_exact. Qed.
 Print Assumptions C18_message_boundaries.
+
+(* group entries: splitGroup cuts the group region exactly at the fields that carry the first
+   member's tag -- every entry but the last becomes its own chunk, the last chunk runs to the end
+   of the data -- however many entries there are and whatever the other fields contain, as long
+   as that tag is not carried by another field of an entry or by a field after the group *)
+From Coq Require Import List.
+From SF Require Import Roundtrip_group.
+Theorem C18_split_group_boundaries :
+  forall t1, wf_tag t1 ->
+  forall es B fuel,
+    es <> nil ->
+    Forall (entry_ok t1) es -> Forall (Forall wf_field) es -> Forall wf_field B ->
+    ~ In t1 (map fst B) ->
+    (length (SOH :: tlayout (catB es B)) < fuel)%nat ->
+    split_group fuel (SOH :: tlayout (catB es B)) (SOH :: t1 ++ (EQS :: nil))%list = Ok (chunks_of es B).
+Proof. exact split_group_entries. Qed.
+Print Assumptions C18_split_group_boundaries.
